@@ -23,7 +23,20 @@ import (
 	"time"
 )
 
-const verifDir = "/verif"
+// verifDir is the root of the verification tree: the directory above the bin/ directory the
+// executable lives in (so that a snapshot of /verif works on itself), else /verif.
+var verifDir = func() string {
+	if v := os.Getenv("VERIF_DIR"); v != "" {
+		return v
+	}
+	if exe, err := os.Executable(); err == nil {
+		root := filepath.Dir(filepath.Dir(exe))
+		if st, err := os.Stat(filepath.Join(root, "sim", "go.mod")); err == nil && !st.IsDir() {
+			return root
+		}
+	}
+	return "/verif"
+}()
 
 type replayFile struct {
 	Property    string   `json:"property"`
@@ -222,6 +235,9 @@ func check(prop, tier string, seed uint64, runsOverride int, workers int) int {
 		budgetS = 1500
 	} else {
 		budgetS = 150
+	}
+	if v, err := strconv.Atoi(os.Getenv("VERIF_BUDGET_S")); err == nil && v > 0 {
+		budgetS = v
 	}
 	if runsOverride > 0 {
 		total = runsOverride
